@@ -38,6 +38,7 @@ type Obligation struct {
 	Model   string
 	Size    int
 	Script  *Script
+	Replay  *ReplayInfo
 }
 
 // Script is the shared SMT text of one function (or lemma).
@@ -82,6 +83,12 @@ type Exec struct {
 	linking     bool
 	sentAssumed map[string]bool
 	constGlobals map[string]bool
+	// counterexample replay: observation of the inputs (entry state) and, while a
+	// postcondition obligation is being recorded, of the outputs at that return
+	replayArgs []Val
+	replayIn   []*Obs
+	pendingOut []*Obs
+	replayPre  int
 }
 
 type Frame struct {
@@ -200,6 +207,13 @@ func (x *Exec) oblige(kind, name string, guard, goal Term, detail string, pos to
 		o.Pos = fmt.Sprintf("%s:%d", strings.TrimPrefix(p.Filename, x.P.Repo+"/"), p.Line)
 	}
 	if !x.discover {
+		if x.replayIn != nil && (kind == "post" || safety) {
+			o.Replay = &ReplayInfo{Fn: x.top, In: x.replayIn, Out: x.pendingOut, StrConsts: x.S.strConsts, BV: x.mode == ModeBV, PrePrefix: x.replayPre}
+			switch kind {
+			case "bounds", "nil", "slice", "div", "shift", "assert", "panic":
+				o.Replay.ExpectPanic = true
+			}
+		}
 		x.obls = append(x.obls, o)
 	}
 	x.assume(full)
